@@ -1,5 +1,6 @@
 import Lean.Data.Json
 import Ktm.Results
+import Ktm.Track
 import Ktm.Driver
 /-! Line-protocol driver for the `metrics` suite (C18, C20-stub): metric histories, result conversion,
     multi-objective values, the shared SaveBestEpoch callback. -/
@@ -39,6 +40,27 @@ def handle (j : Json) : String :=
           | .arr #[.bool b, v] => (v.getInt?).toOption.map (fun v => (b, v)) | _ => none)
       | _ => []
     s!"value={Results.multiValue terms}"
+  | "track" =>
+    -- Oracle.update_trial over a MetricsTracker: reports of several metrics per step
+    let oj := (j.getObjVal? "objective").toOption.getD Json.null
+    let pairs (x : Json) : List (String × Bool) := match x with
+      | .arr a => a.toList.filterMap (fun r => match r with | .arr #[.str n, .bool b] => some (n, b) | _ => none)
+      | _ => []
+    let o : Track.Obj := ⟨(oj.getObjValAs? String "name").toOption.getD "", (oj.getObjValAs? Bool "minimize").toOption.getD true,
+                          pairs ((oj.getObjVal? "parts").toOption.getD Json.null)⟩
+    let table : List (String × Option Bool) := match (j.getObjVal? "infer").toOption with
+      | some (.arr a) => a.toList.filterMap (fun r => match r with
+          | .arr #[.str n, .bool b] => some (n, some b) | .arr #[.str n, .null] => some (n, none) | _ => none)
+      | _ => []
+    let infer : String → Option Bool := fun n => match table.find? (·.1 == n) with | some (_, d) => d | none => none
+    let reps : List (Int × List (String × Metrics.FV)) := match (j.getObjVal? "reports").toOption with
+      | some (.arr a) => a.toList.filterMap (fun r => match r with
+          | .arr #[s, .arr kvs] => (s.getInt?).toOption.map (fun s => (s, kvs.toList.filterMap (fun kv => match kv with
+              | .arr #[.str n, v] => some (n, Driver.fvOfJson v) | _ => none)))
+          | _ => none)
+      | _ => []
+    let t := Track.reports infer o reps
+    String.intercalate ";" (t.map (fun nh => s!"{nh.1}:{if nh.2.minimize then "min" else "max"}:{optFvStr (Track.best nh.2)}:{optIntStr (Track.bestStepOf nh.2)}"))
   | _ => "bad-op"
 
 end DriverMetrics
